@@ -42,7 +42,8 @@ CXXFLAGS = sorted({f for m in PARTS for f in getattr(m, 'CXXFLAGS', [])})
 WRAP = ['sendto', 'recvfrom'] + sorted({w for m in PARTS for w in getattr(m, 'WRAP', [])})
 LIBS = sorted({l for m in PARTS for l in getattr(m, 'LIBS', [])})
 COQ_TIMEOUT = 1200
-SPEC_KEYS = ['hz', 'twin']
+# o<k>: the node's outputs after datagram k (events, handler DMX data, active priority); s<k> also carries internals
+SPEC_KEYS = ['hz', 'twin'] + ['o%d' % i for i in range(64)]
 INTERNAL_KEYS = []
 
 
@@ -96,10 +97,47 @@ def gen_consts(v):
     return err
 
 
+CAPS = {'shownet': 1316, 'acn': 1472, 'artnet': 1228, 'espnet': 521, 'sandnet': 524, 'pathport': 1500, 'kinet': 1500}
+
+
 def gen_cases(rng, tier):
+    quick = tier == 'quick'
+    pool = {}
     for m in PARTS:
+        seen = 0
         for c in m.gen_cases(rng, tier):
             yield c
+            # reservoir of cases whose last datagram is a real packet, to be re-sent oversized
+            last = c.rsplit(' ', 1)[-1]
+            if len(last) >= 60:
+                seen += 1
+                r = pool.setdefault(m.NAME, [])
+                if len(r) < (6 if quick else 60):
+                    r.append(c)
+                elif rng.randrange(seen) < len(r):
+                    r[rng.randrange(len(r))] = c
+    # datagrams LARGER than the receive buffer (the fourth instance sends them through the kernel and the real
+    # UDPSocket::RecvFrom): capacity+1, capacity+200, 64 KB - 29; valid packet in front, random bytes behind
+    for name in sorted(pool):
+        cap = CAPS.get(name)
+        if not cap:
+            continue
+        for c in pool[name]:
+            head, last = c.rsplit(' ', 1)
+            pre = last[:len(last) - len(last.lstrip('@!'))]
+            body = last[len(pre):]
+            for total in (cap + 1, cap + 200, 65507):
+                extra = total - len(body) // 2
+                if extra <= 0:
+                    continue
+                pad = ''.join('%02x' % rng.randrange(256) for _ in range(extra))
+                big = '%s %s%s%s' % (head, pre, body, pad)
+                ok = [getattr(m, 'predictable', None) for m in PARTS if m.NAME == name][0]
+                if ok is None or ok(big):
+                    yield big
+    # the socket layer's contract itself
+    for cap in sorted(set(CAPS.values())) + [1, 100]:
+        yield 'sockrx %d %s' % (cap, ' '.join(str(x) for x in (0, 1, cap - 1, cap, cap + 1, cap + 200, 65507)))
 
 
 def nontrivial(payload, md):
@@ -111,11 +149,13 @@ def nontrivial(payload, md):
 
 
 RULE = ('every datagram is delivered to twin real node objects whose receive buffers are pre-filled with 0x00 / 0xA5 '
-        'and to a third instance whose receive buffer still holds the previous datagrams of the case (link-time recvfrom wrapper) and to the extracted model; compared after every datagram. '
+        'to a third instance whose receive buffer still holds the previous datagrams of the case, to a fourth instance that receives the datagram through the kernel over real loopback UDP sockets (all via the link-time recvfrom wrapper; oversized datagrams included) and to the extracted model; compared after every datagram. '
         + ' || '.join(m.RULE for m in PARTS) +
         '; non-trivial = at least one datagram of the case was accepted and changed handler state/output; '
         'distinct = distinct model output line')
-ASSUMPTIONS = ['received length <= capacity of the receive buffer (recvfrom contract)',
+ASSUMPTIONS = ['received length <= capacity of the receive buffer: the hypothesis n <= CAP of every theorem is what the socket '
+               'layer (ola::network::UDPSocket::RecvFrom over recvfrom) guarantees; validated by the sockrx cases and by '
+               'the fourth (kernel) instance receiving oversized datagrams over real loopback sockets',
                'little-endian x86-64 host', 'operator new does not fail',
                'one datagram is handled to completion before the next (single-threaded SelectServer)']
 TRUSTED = [t for m in PARTS for t in m.TRUSTED]
@@ -142,6 +182,9 @@ LEVEL_NOTE = ('Trusted: Coq kernel, extraction (ExtrOcamlBasic), OCaml/C++ glue 
               'with three instances per case: receive buffers pre-filled with 0x00, with 0xA5, and a persistent buffer that '
               'still holds the earlier datagrams of the case (Art-Net and KiNET use their own poison-filling socket; KiNET '
               'has no third instance), not proved; a stale read whose effect is the same for all three is invisible; '
-              'received length <= capacity is assumed of recvfrom.')
+              'received length <= capacity (n <= CAP in every theorem) is what UDPSocket::RecvFrom guarantees; it is not proved but '
+              'validated: a fourth instance per case receives the datagram through the kernel (real loopback UDP socket pair, '
+              'real recvfrom with the caller\'s buffer, length and flags) and the real UDPSocket::RecvFrom, including datagrams of '
+              'capacity+1, capacity+200 and 65507 bytes, and the sockrx cases test the contract directly.')
 TECHNIQUE = 'Coq proof on hand-written executable model + extracted-model/implementation differential correspondence'
 DESIGN_REF = 'DESIGN.md §4 C06'
